@@ -493,10 +493,9 @@ def onTok (env : Env) (sp : Spec) (fuel : Nat) (rec : Nat → L → PG → Res) 
         else if g.raising then ⟨.raised, l.toks, g⟩
         else epilogue sp fuel { l with wellformed := false } g
       | .perr pv prods st =>                                                           -- :584-594
+        -- Missing is an error also with `stopIfNoMoreMatch`; the token is not pushed back (since ed45313)
         let l := { l with prods := prods, st := st, prod := pv }
-        if l.stopIf then
-          epilogue sp fuel { l with stopall := true } { g with pushed := tok :: g.pushed } -- :589-590
-        else if g.raising then ⟨.raised, l.toks, g⟩
+        if g.raising then ⟨.raised, l.toks, g⟩
         else epilogue sp fuel { l with wellformed := false } g
       | .found p prods st =>
         let l := { l with prods := prods, st := st, prod := some p }
